@@ -52,6 +52,7 @@ type HarnessResult struct {
 	Steps        int
 	Forced       int
 	Decided      int
+	Choices      int
 	Funcs        map[string]int
 	Intrinsics   map[string]int
 	Queries      struct{ Sat, Unsat, Unknown, Errors int }
@@ -175,6 +176,7 @@ func (e *Explorer) Run(harness string, maxPaths int, maxSamples int) (*HarnessRe
 		res.Steps += out.Steps
 		res.Forced += out.Forced
 		res.Decided += out.Decided
+		res.Choices += out.Choices
 		res.Kinds[out.Kind]++
 		sig := out.Kind + "|" + firstLine(out.Msg) + "|" + strings.Join(out.Covers, ",")
 		res.Distinct[sig] = true
